@@ -91,7 +91,7 @@ def gen_perm_cases(rng, n_random, thorough):
         for r in pats:
             for cpat in pats:
                 if sum(r) == sum(cpat) and 0 < sum(r) <= (6 if thorough else 5):
-                    if n == 3 and not thorough and rng.random() < 0.6:
+                    if n == 3 and not thorough and rng.random() < 0.75:
                         continue
                     mk(n, n, r, cpat, "square-zero" if (0 in r or 0 in cpat) else "square")
     # rectangular: n != m
@@ -436,10 +436,82 @@ def rep_term(cs, r):
         cmat(r["full"], fqi))
 
 
+# ----------------------------------------------------------------------------- parameter grids
+def special_amplitudes(rng, hi=0.5):
+    """exact zero, +-tiny, a negative and a positive generic value"""
+    return [0.0, 1e-7, -1e-7, -rng.uniform(0.1, hi), rng.uniform(0.1, hi)]
+
+
+def special_angles(rng):
+    """zero, generic, negative, beyond pi"""
+    return [0.0, rng.uniform(0.2, 1.4), -rng.uniform(0.2, 3.0), rng.uniform(3.3, 6.0)]
+
+
+def gen_disp_cases(rng, thorough):
+    """(r, phi) over the special points of the box and both signs, for both matrix rules"""
+    cases = []
+    for rep in range(3 if thorough else 1):
+        for kind in ("displacement", "squeezing"):
+            for r in special_amplitudes(rng, 0.8):
+                for phi in special_angles(rng):
+                    cutoff = rng.randint(2, 7)
+                    cases.append({"kind": kind, "cutoff": cutoff, "r": r, "phi": phi,
+                                  "upstream": [[fl(rcq(rng, 1)) for _ in range(cutoff)] for _ in range(cutoff)]})
+    return cases
+
+
+def gen_grid_specs(rng, thorough):
+    """One gate under test per circuit, EVERY parameter of it differentiated, parameter values over
+    the special points of the box (exact 0, +-tiny, negative, positive; angles 0, generic, negative,
+    > pi); the gate acts on a populated superposition on d = 1, 2, 3 modes."""
+    specs = []
+    k = [0]
+
+    def add(gate, nmodes, params):
+        k[0] += 1
+        d = max(nmodes, 1 + k[0] % 3)
+        cutoff = {1: 5, 2: 4, 3: 3}[d]
+        modes = rng.sample(range(d), nmodes)
+        theta = list(params.values())
+        occ, occ2 = [0] * d, [0] * d
+        occ[rng.randrange(d)] = 1
+        occ2[rng.randrange(d)] = min(2, cutoff - 1)
+        prep = [["number", occ, 0.6], ["number", occ2, 0.8]] if occ != occ2 else [["number", occ, 1.0]]
+        pre = [["Displacement", [modes[0]], {"r": ["c", 0.3], "phi": ["c", 0.4]}]]
+        post = []
+        if d >= 2:
+            pre.append(["Beamsplitter", [0, 1], {"theta": ["c", 0.7], "phi": ["c", 0.3]}])
+            post.append(["Beamsplitter", [d - 2, d - 1], {"theta": ["c", 0.5], "phi": ["c", -0.4]}])
+        if d == 3:
+            pre.append(["Beamsplitter", [1, 2], {"theta": ["c", 0.9], "phi": ["c", 0.1]}])
+        else:
+            post.append(["Displacement", [modes[0]], {"r": ["c", 0.2], "phi": ["c", -0.9]}])
+        gates = pre + [[gate, modes, {name: ["p", i] for i, name in enumerate(params)}]] + post
+        out = ["state_re_im", "probs", "mean_position0", "state_re_im", "mean_photon"][k[0] % 5]
+        specs.append({"spec": {"d": d, "cutoff": cutoff, "prep": prep, "gates": gates, "output": out},
+                      "theta": theta, "grid": "%s(%s)" % (gate, ", ".join("%s=%r" % kv for kv in params.items()))})
+
+    for rep in range(2 if thorough else 1):
+        for gate in ("Displacement", "Squeezing"):
+            for r in special_amplitudes(rng):
+                for phi in special_angles(rng):
+                    add(gate, 1, {"r": r, "phi": phi})
+        phis = special_angles(rng)
+        for i, th in enumerate(special_angles(rng)):
+            for phi in (phis if thorough else (phis[i], phis[(i + 1) % 4])):
+                add("Beamsplitter", 2, {"theta": th, "phi": phi})
+        for phi in special_angles(rng):
+            add("Phaseshifter", 1, {"phi": phi})
+        for xi in (0.0, rng.uniform(0.1, 1.0), -rng.uniform(0.1, 1.0)):
+            add("Kerr", 1, {"xi": xi})
+            add("CrossKerr", 2, {"xi": xi})
+    return specs
+
+
 # ----------------------------------------------------------------------------- end-to-end specs
 def gen_specs(rng, n, thorough, for_jax=False):
-    """Circuits of differentiable gates on d<=3 modes at points of the box r in [0,0.5],
-    angles in [-pi,pi], Kerr in [-1,1]."""
+    """Circuits of differentiable gates on d<=3 modes at points of the box r in [-0.5,0.5] (exact 0
+    and +-tiny included), angles in [-3,6] (0 and > pi included), Kerr in [-1,1]."""
     specs = []
     for t in range(n):
         d = rng.choice([1, 2, 2, 3]) if not for_jax else rng.choice([1, 2])
@@ -453,11 +525,22 @@ def gen_specs(rng, n, thorough, for_jax=False):
         def const(lo, hi):
             return ["c", rng.uniform(lo, hi)]
 
+        all_params = rng.random() < 0.5  # every parameter of every gate differentiated
+
+        def parv(v):
+            theta.append(v)
+            return ["p", len(theta) - 1]
+
         def amp():
-            return par(0.05, 0.5) if rng.random() < 0.8 else const(0.05, 0.5)
+            u = rng.random()
+            v = (0.0 if u < 0.12 else rng.choice([1e-7, -1e-7]) if u < 0.2
+                 else -rng.uniform(0.05, 0.5) if u < 0.55 else rng.uniform(0.05, 0.5))
+            return parv(v) if (all_params or rng.random() < 0.8) else ["c", v]
 
         def ang():
-            return par(-3.0, 3.0) if rng.random() < 0.7 else const(-3.0, 3.0)
+            u = rng.random()
+            v = 0.0 if u < 0.1 else rng.uniform(3.2, 6.0) if u < 0.25 else rng.uniform(-3.0, 3.0)
+            return parv(v) if (all_params or rng.random() < 0.7) else ["c", v]
 
         gates = []
         ngates = rng.randint(2, 4 if not for_jax else 3)
@@ -508,6 +591,17 @@ def gen_specs(rng, n, thorough, for_jax=False):
     return specs
 
 
+def param_owner(spec, theta, k):
+    """which gate argument the k-th differentiated parameter is, and the class of its value"""
+    for name, modes, argspec in spec["gates"]:
+        for arg, (kind, val) in argspec.items():
+            if kind == "p" and val == k:
+                v = theta[k]
+                cls = "=0" if v == 0.0 else "=+-tiny" if abs(v) < 1e-5 else "<0" if v < 0 else ">pi" if v > 3.1416 else ">0"
+                return "%s.%s" % (name, arg), "%s%s" % (arg, cls), v
+    return "?", "?", None
+
+
 def compare_jac(J, Jfd, tol=1e-6):
     import numpy as np
     J, Jfd = np.asarray(J, float), np.asarray(Jfd, float)
@@ -525,89 +619,69 @@ def compare_jac(J, Jfd, tol=1e-6):
 
 
 # ----------------------------------------------------------------------------- run
+def timed(times, name, f, *a):
+    import time
+    t0 = time.time()
+    try:
+        return f(*a)
+    finally:
+        times[name] = round(time.time() - t0, 1)
+
+
 def run(chk: Check):
+    import time
     corr_broken = []
-    if os.environ.get("C10_SKIP_PROOFS"):
-        # development aid for mutation runs on an overloaded machine; such a run is never green
-        corr_broken.append("development run: Props/C10.v was not compiled (C10_SKIP_PROOFS)")
-    else:
-        chk.proofs()
+    times = {}
+    timed(times, "proofs", chk.proofs)
     T = chk.thorough
     rng = chk.rng
 
     # ---- inputs
     perm_cases = gen_perm_cases(rng, 60 if T else 12, T)
-    gate_cases = gen_gate_cases(rng, 120 if T else 24, T)
-    rep_cases = gen_rep_cases(rng, 60 if T else 12)
-    disp_cases = []
-    for t in range(80 if T else 16):
-        cutoff = rng.randint(2, 7)
-        disp_cases.append({"kind": "displacement" if t % 2 == 0 else "squeezing", "cutoff": cutoff,
-                           "r": rng.uniform(0.0, 0.8) if t % 5 else 0.0, "phi": rng.uniform(-3.1, 3.1),
-                           "upstream": [[fl(rcq(rng, 1)) for _ in range(cutoff)] for _ in range(cutoff)]})
-    specs_tf = gen_specs(rng, 40 if T else 6, T)
-    specs_jax = gen_specs(rng, 8 if T else 1, T, for_jax=True)
-    only = {x for x in os.environ.get("C10_ONLY", "").split(",") if x}  # development aid: subset of streams
-    if only:
-        chk.notes.append("C10_ONLY=%s: only these streams were run" % ",".join(sorted(only)))
-        if "perm" not in only:
-            perm_cases = perm_cases[:2]
-        if "gate" not in only:
-            gate_cases = gate_cases[:1]
-        if "rep" not in only:
-            rep_cases = rep_cases[:1]
-        if "tf" not in only:
-            specs_tf = specs_tf[:1]
-        if "disp" not in only:
-            disp_cases = disp_cases[:1]
-        if "jax" not in only:
-            specs_jax = specs_jax[:0]
-    for i, s in enumerate(specs_tf):
-        s["modes"] = ["eager_rows", "eager_jacobian"] + (["function"] if i % 3 == 0 else []) + \
-                     (["outer_function"] if i % 3 == 1 else [])
+    gate_cases = gen_gate_cases(rng, 120 if T else 16, T)
+    rep_cases = gen_rep_cases(rng, 60 if T else 8)
+    disp_cases = gen_disp_cases(rng, T)
+    grid_specs = gen_grid_specs(rng, T)
+    rand_specs = gen_specs(rng, 40 if T else 4, T)
+    for i, s in enumerate(grid_specs):  # the hand-written rules live in eager mode: always eager
+        s["modes"] = ["eager_jacobian"] + (["eager_rows"] if i % (2 if T else 4) == 0 else []) + \
+                     (["function"] if i % (3 if T else 23) == 0 else [])
+    for i, s in enumerate(rand_specs):
+        s["modes"] = ["eager_rows", "eager_jacobian"] + (["function"] if i % 4 == 0 else []) + \
+                     (["outer_function"] if i % 4 == 1 else [])
+    specs_tf = grid_specs + rand_specs
+    # JAX differentiates the forward recursion itself (no hand-written rule): a few grid points
+    # (r = 0 exactly, negative r) and random circuits
+    jax_grid = [s for s in grid_specs if s["spec"]["d"] == 1 and s["grid"].split("(")[0] in ("Displacement", "Squeezing")
+                and (s["theta"][0] == 0.0 or s["theta"][0] < -0.05)]
+    nj = 8 if T else 1
+    specs_jax = [{"spec": s["spec"], "theta": s["theta"], "grid": s["grid"]}
+                 for s in jax_grid[:: max(1, len(jax_grid) // nj)][:nj]] + gen_specs(rng, 8 if T else 1, T, for_jax=True)
+    for i, s in enumerate(specs_jax):
+        s["modes"] = ["jacrev", "jit_jacfwd"] if (T or i == len(specs_jax) - 1) else ["jacrev"]
     # the JAX VJP stream is a test of the shipped FFI binary: a third of the square patterns in the
-    # quick tier, every pattern in the thorough tier; tall matrices are left out (the shipped
-    # binary corrupts the heap on them, see corpus) - they are covered by the native stream
+    # quick tier, every pattern in the thorough tier; tall matrices are left out (a binary built
+    # before the grad_perm repair corrupts the heap on them, see corpus) - they are covered by the
+    # native stream
     jax_perm_cases = [cs for i, cs in enumerate(perm_cases) if cs["cls"] != "rectangular-tall"
                       and (T or cs["cls"].startswith("rectangular") or i % 3 == 0)]
 
     # ---- implementation side: three processes side by side + the native driver
-    cache = os.environ.get("C10_CACHE")  # development aid: reuse the implementation outputs of a previous run
-    if cache and os.path.exists(cache):
-        exe, err = None, ""
-        impl_tf, impl_jax, impl_np, nat = json.load(open(cache))
-        chk.notes.append("C10_CACHE: implementation outputs were read from %s, not produced by this run" % cache)
-        for r in nat or []:
-            if "grad" in r:
-                r["grad"] = [[tuple(z) for z in row] for row in r["grad"]]
-                r["perm"] = tuple(r["perm"])
-    else:
-        exe, err = build_native(chk)
-        need_tf = not only or bool(only & {"gate", "rep", "disp", "tf"})
-        need_jax = not only or bool(only & {"perm", "jax"})
-        need_np = not only or bool(only & {"tf", "jax"})
-        if not need_tf:
-            gate_cases, rep_cases, disp_cases, specs_tf = [], [], [], []
-        if not need_np:
-            specs_tf, specs_jax = [], []
-
-        def stub(*a):
-            return {"gate": [], "rep": [], "disp": [], "e2e": [], "perm": []}
-
-        with ThreadPoolExecutor(max_workers=3) as ex:
-            f_tf = ex.submit(run_impl if need_tf else stub, "c10_tf.py", {
-                "gate": [gate_request(c) for c in gate_cases], "rep": [rep_request(c) for c in rep_cases],
-                "disp": disp_cases, "e2e": specs_tf}, 3000)
-            f_jax = ex.submit(run_impl if need_jax else stub, "c10_jax.py", {
-                "perm": [{"A": [[fl(z) for z in row] for row in c["A"]], "r": c["r"], "c": c["c"],
-                          "jit": (i % 3 == 0 or T)} for i, c in enumerate(jax_perm_cases)]
-                if (not only or "jax" in only or "perm" in only) else [],
-                "e2e": specs_jax}, 3000)
-            f_np = ex.submit(run_impl if need_np else stub, "c10_np.py", {"e2e": specs_tf + specs_jax}, 3000)
-            nat = run_native(exe, perm_cases) if exe else None
-            impl_tf, impl_jax, impl_np = f_tf.result(), f_jax.result(), f_np.result()
-        if cache:
-            json.dump([impl_tf, impl_jax, impl_np, nat], open(cache, "w"))
+    exe, err = timed(times, "g++", build_native, chk)
+    t_impl = time.time()
+    with ThreadPoolExecutor(max_workers=3) as ex:
+        f_tf = ex.submit(timed, times, "tf", run_impl, "c10_tf.py", {
+            "gate": [gate_request(c) for c in gate_cases], "rep": [rep_request(c) for c in rep_cases],
+            "disp": disp_cases, "e2e": specs_tf}, 3000)
+        f_jax = ex.submit(timed, times, "jax", run_impl, "c10_jax.py", {
+            "perm": [{"A": [[fl(z) for z in row] for row in c["A"]], "r": c["r"], "c": c["c"],
+                      "jit": (i % 3 == 0 or T)} for i, c in enumerate(jax_perm_cases)],
+            "e2e": specs_jax}, 3000)
+        f_np = ex.submit(timed, times, "numpy", run_impl, "c10_np.py", {"e2e": specs_tf + specs_jax}, 3000)
+        nat = timed(times, "native", run_native, exe, perm_cases) if exe else None
+        impl_tf, impl_jax, impl_np = f_tf.result(), f_jax.result(), f_np.result()
+    times["impl_total"] = round(time.time() - t_impl, 1)
+    t_coq = time.time()
     if exe:
         try:
             os.remove(exe)
@@ -766,13 +840,35 @@ def run(chk: Check):
         if "error" in r:
             chk.violation(key, "rule function raised: " + r["error"], {"case": cs})
             continue
+        rcls = "r=0" if cs["r"] == 0.0 else "r<0" if cs["r"] < 0 else "r>0"
+        failed = False
         for name, a, b in zip(("r", "phi"), r["grad"], r["fd"]):
             if not (math.isfinite(a) and abs(a - b) <= 1e-6 * (1 + abs(b))):
-                chk.violation(key, "d/d%s from create_single_mode_%s_gradient = %.9g, finite difference of the matrix function = %.9g"
-                              % (name, cs["kind"], a, b), {"case": cs, "got": r["grad"], "finite_difference": r["fd"]})
+                chk.violation(key + ":d/d%s:%s" % (name, rcls),
+                              "at (r, phi) = (%r, %r), cutoff %d: d/d%s from create_single_mode_%s_gradient = %.9g, "
+                              "finite difference of the matrix function = %.9g"
+                              % (cs["r"], cs["phi"], cs["cutoff"], name, cs["kind"], a, b),
+                              {"case": cs, "got": r["grad"], "finite_difference": r["fd"]})
+                failed = True
                 break
-    chk.stream("create_single_mode_displacement/squeezing_gradient called directly vs Richardson differences of the matrix "
-               "functions (r in [0,0.8] incl. r=0, cutoff 2..7)", n_disp, sum(1 for c in disp_cases if c["cutoff"] >= 3),
+        if failed:
+            continue
+        if r["entry_matrix_err"] > 1e-9:
+            chk.violation("C10:%s-operator:value:%s" % (cs["kind"], rcls),
+                          "get_single_mode_%s_operator differs from the NumPy matrix function at (r, phi) = (%r, %r)"
+                          % (cs["kind"], cs["r"], cs["phi"]), {"case": cs, "error": r["entry_matrix_err"]})
+            continue
+        for name, a, b, none in zip(("r", "phi"), r["tape"], r["fd"], r["tape_none"]):
+            if not (math.isfinite(a) and abs(a - b) <= 1e-6 * (1 + abs(b))):
+                chk.violation("C10:%s-operator:tape:d/d%s:%s" % (cs["kind"], name, rcls),
+                              "at (r, phi) = (%r, %r), cutoff %d: eager tf.GradientTape through get_single_mode_%s_operator "
+                              "gives d/d%s = %.9g%s, finite difference of the matrix function = %.9g"
+                              % (cs["r"], cs["phi"], cs["cutoff"], cs["kind"], name, a, " (None)" if none else "", b),
+                              {"case": cs, "tape": r["tape"], "finite_difference": r["fd"]})
+                break
+    chk.stream("create_single_mode_displacement/squeezing_gradient called directly, and eager tf.GradientTape through "
+               "get_single_mode_*_operator, both parameters, vs Richardson differences of the NumPy matrix functions on the grid "
+               "r in {0.0, +-1e-7, negative, positive} x phi in {0, generic, negative, > pi}, cutoff 2..7", 2 * n_disp, sum(1 for c in disp_cases if c["cutoff"] >= 3),
                kind="differential test (no theorem)",
                samples=[{"case": disp_cases[0], "got": (impl_tf.get("disp") or [None])[0]}] if disp_cases else [])
 
@@ -803,17 +899,25 @@ def run(chk: Check):
                 continue
             bad, where = compare_jac(r["jac"], ref["jac"])
             if bad:
-                chk.violation("C10:e2e:%s:%s:%s" % (cls, s["spec"]["output"], gates), bad,
+                owner, pcls, pval = param_owner(s["spec"], s["theta"], where[1]) if where else ("?", "?", None)
+                chk.violation("C10:e2e:%s:d/d(%s):%s" % (cls, owner, pcls),
+                              "%s of %s w.r.t. %s at theta = %s%s (d=%d, cutoff %d): %s"
+                              % (mode, s["spec"]["output"], owner, s["theta"],
+                                 " [grid point %s]" % s["grid"] if s.get("grid") else "", s["spec"]["d"], s["spec"]["cutoff"], bad),
                               {"spec": s["spec"], "theta": s["theta"], "mode": mode, "autodiff": r["jac"],
                                "finite_difference": ref["jac"], "fd_error_estimate": ref.get("fd_err")})
     chk.stream("tf.GradientTape (rows, jacobian/pfor, TensorflowConnector(tf.function), outer tf.function) and jax.jacrev / jit "
-               "of probabilities, expectation values and amplitudes vs Richardson central differences of the NumPy simulation",
+               "of probabilities, expectation values and amplitudes vs Richardson central differences of the NumPy simulation: "
+               "one-gate grid (every parameter of Displacement, Squeezing, Beamsplitter, Phaseshifter, Kerr, CrossKerr differentiated at "
+               "r in {0.0, +-1e-7, negative, positive} x angle in {0, generic, negative, > pi}, d = 1..3, eager always) + random circuits",
                n_e2e, len(allspecs), kind="differential test (no theorem)",
                samples=[{"spec": specs_tf[0]["spec"], "theta": specs_tf[0]["theta"],
                          "jac_tf": impl_tf["e2e"][0].get("eager_rows"), "jac_fd": impl_np["e2e"][0].get("jac")}]
                if specs_tf else [],
                note="%d parameters differentiated; tolerance 1e-6 (1+|fd|)" % n_par)
 
+    times["model_eval_and_compare"] = round(time.time() - t_coq, 1)
+    chk.notes.append("wall seconds per phase: " + json.dumps(times))
     for k in sorted({v["key"] for v in chk.violations})[:12]:
         print("  failing: " + k)
     chk.assumptions += [
